@@ -510,5 +510,17 @@ def run(tier, ev):
 
 
 def replay(case):
+    # state kept *between calls* (a cache keyed by the shape of the input) only shows on a later call: the recorded input
+    # is evaluated after a sibling of the same shape (same nodes, labels rotated by one), as it was in the search, where
+    # one process evaluates many inputs in a row
+    if case["kind"] == "H" and case["spec"].get("nodes"):
+        try:
+            ns = list(case["spec"]["nodes"])
+            rot = dict(zip(ns, ns[1:] + ns[:1]))
+            sib = F.relabel(case["spec"], node_map=rot)
+            sib["nodes"] = ns
+            _work(("H", sib))
+        except Exception:  # noqa: BLE001
+            pass
     r = _work((case["kind"], case["spec"] if case["kind"] != "lshift" else tuple(case["spec"])))
     return [f"{m}: {msg}" for m, msg, _, _ in r["viols"] if m == case.get("monitor")]
